@@ -39,48 +39,58 @@ def sync_extraction(pid, extract_vo):
 
 
 # ---------------------------------------------------------------- generators
+MINORS = [8, 8, 8, 8, 7, 7, 3, 889, 889, 9, 14, 16, 100, 888, 890, 999, 5, 0]
+
+
 def gen_case(rng, k, flags=None, nops=None, change_flags=False):
     fl = flags if flags is not None else (rng.random() < 0.3, rng.random() < 0.35, rng.random() < 0.45)
     L = ["case %d a%dn%dd%d%s" % (k, fl[0], fl[1], fl[2], " dyn" if change_flags else ""),
          "flags %d %d %d" % (int(fl[0]), int(fl[1]), int(fl[2]))]
-    phase = []          # planner's view: 1 sec, 3 init, 4 normal, -1 closed
+    phase = []          # planner's rough view: 0 hold, 1 sec, 3 init, 4 normal, -1 closed
+    minors = []
     nops = nops or rng.choice([4, 8, 12, 20, 30])
     for _ in range(nops):
         r = rng.random()
         live = [i for i, p in enumerate(phase) if p != -1]
+        if not live and len(phase) >= 10:
+            L.append("probe")            # ten clients used up and all gone: nothing left to do
+            break
+        q = "q" if rng.random() < 0.25 else ""      # quiet: the event stays pending until the next pass
         if (r < 0.25 or not live) and len(phase) < 10:
             rev = 1 if rng.random() < 0.2 else 0
+            m = rng.choice(MINORS)
             h = rng.random()
             if h < 0.12:
-                L.append("connhold %d" % rev)      # newClientHook: RFB_CLIENT_ON_HOLD
+                L.append("connhold %d %d" % (rev, m))      # newClientHook: RFB_CLIENT_ON_HOLD
                 phase.append(0)
             elif h < 0.18:
                 L.append("connrefuse %d" % rev)    # newClientHook: RFB_CLIENT_REFUSE
                 phase.append(-1)
             else:
-                L.append("conn %d" % rev)
-                phase.append(1)
+                L.append("conn %d %d" % (rev, m))
+                phase.append(3 if m < 7 else 1)
+            minors.append(m)
         elif r < 0.32 and any(phase[i] == 0 for i in live):
             i = rng.choice([i for i in live if phase[i] == 0])
             L.append("release %d" % i)
-            phase[i] = 1
+            phase[i] = 3 if minors[i] < 7 else 1
         elif r < 0.45:
             c = [i for i in live if phase[i] == 1] or live
             i = rng.choice(c)
-            L.append("adv %d" % i)
+            L.append("adv%s %d" % (q, i))
             if phase[i] == 1:
-                phase[i] = 3
+                phase[i] = 4 if minors[i] == 889 else 3
         elif r < 0.80:
             c = [i for i in live if phase[i] == 3]
             if not c or rng.random() < 0.05:
                 c = list(range(len(phase))) or [0]
             i = rng.choice(c)
-            L.append("init %d %d" % (i, rng.choice([0, 0, 0, 1, 1, 255, 2])))
+            L.append("init%s %d %d" % (q, i, rng.choice([0, 0, 0, 1, 1, 255, 2])))
             if i < len(phase) and phase[i] == 3:
-                phase[i] = 4          # (closings are left to the drivers; the planner only needs phases roughly)
+                phase[i] = 4
         elif r < 0.90:
             i = rng.choice(live)
-            L.append("drop %d" % i)
+            L.append("drop%s %d" % (q, i))
             phase[i] = -1
         elif r < 0.95 and change_flags:
             L.append("flags %d %d %d" % (rng.random() < 0.5, rng.random() < 0.5, rng.random() < 0.5))
@@ -90,13 +100,14 @@ def gen_case(rng, k, flags=None, nops=None, change_flags=False):
     return L
 
 
-def gen_directed(k, fl, order, shareds, revs, parked):
+def gen_directed(k, fl, order, shareds, revs, parked, minors=None):
     """n clients arrive in the given order with their shared flags; `parked` clients stop at
-    RFB_SECURITY_TYPE / RFB_INITIALISATION and are only completed at the very end"""
+    RFB_SECURITY_TYPE / RFB_INITIALISATION / on hold and are only completed at the very end"""
     L = ["case %d directed a%dn%dd%d" % (k, fl[0], fl[1], fl[2]), "flags %d %d %d" % fl]
     n = len(order)
+    minors = minors or [8] * n
     for i in range(n):
-        L.append("%s %d" % ("connhold" if parked[i] == 3 else "conn", revs[i]))
+        L.append("%s %d %d" % ("connhold" if parked[i] == 3 else "conn", revs[i], minors[i]))
     for i in range(n):
         if parked[i] not in (1, 3):
             L.append("adv %d" % i)
@@ -112,6 +123,24 @@ def gen_directed(k, fl, order, shareds, revs, parked):
         if parked[i]:
             L.append("init %d %d" % (i, shareds[i]))
     L.append("probe")
+    return L
+
+
+def gen_same_pass(k, fl, newer_hangs_up, sh, minor, extra_old):
+    """a fully connected client hangs up and another client's ClientInit arrives in the SAME pass of
+    the event loop; the list head is the newest client, so the arrival order decides which event is
+    handled first.  extra_old: a third, older, fully connected client exists."""
+    L = ["case %d samepass a%dn%dd%d" % (k, fl[0], fl[1], fl[2]), "flags %d %d %d" % fl]
+    idx = 0
+    if extra_old:
+        L += ["conn 0 8", "adv 0", "init 0 1"]
+        idx = 1
+    a, c = (idx + 1, idx) if newer_hangs_up else (idx, idx + 1)
+    if newer_hangs_up:
+        L += ["conn 0 %d" % minor, "adv %d" % c, "conn 0 8", "adv %d" % a, "init %d 1" % a]
+    else:
+        L += ["conn 0 8", "adv %d" % a, "init %d 1" % a, "conn 0 %d" % minor, "adv %d" % c]
+    L += ["dropq %d" % a, "init %d %d" % (c, sh), "probe"]
     return L
 
 
@@ -143,7 +172,20 @@ def gen_cases(ctx):
                             if not ctx.quick() or rng.random() < 0.12:
                                 revs = [1 if i == rv else 0 for i in range(n)]
                                 parked = [(rng.choice([1, 2, 3]) if i == pk else 0) for i in range(n)]
-                                cases.append(gen_directed(len(cases), fl, order, shareds, revs, parked))
+                                minors = [rng.choice(MINORS) for _ in range(n)]
+                                cases.append(gen_directed(len(cases), fl, order, shareds, revs, parked, minors))
+    # every protocol minor version class as the exclusive / shared newcomer next to a connected client
+    for fl in itertools.product((0, 1), repeat=3):
+        for m in (0, 3, 6, 7, 8, 9, 14, 16, 100, 888, 889, 890, 999):
+            for sh in (0, 1):
+                cases.append(gen_directed(len(cases), fl, (0, 1), (1, sh), (0, 0), (0, 0), [8, m]))
+    # hang-up and ClientInit in the same pass, both arrival orders
+    for fl in itertools.product((0, 1), repeat=3):
+        for newer in (True, False):
+            for sh in (0, 1):
+                for m in (8, 3, 14):
+                    for extra in (False, True):
+                        cases.append(gen_same_pass(len(cases), fl, newer, sh, m, extra))
     nrand = 1500 if ctx.quick() else 20000
     for _ in range(nrand):
         cases.append(gen_case(rng, len(cases), change_flags=rng.random() < 0.15))
@@ -164,14 +206,109 @@ def parse_states(line):
     return out
 
 
+class Sim:
+    """The stated policy, executed on the script: which clients are open and in which state.  Events
+    pending at the same time are handled one per client and pass, newest client first (the client
+    list is newest-first); a message before a hang-up."""
+    def __init__(self):
+        self.always = self.never = self.dont = False
+        self.cl = []      # dicts: st, rev, minor, hold, pend, gone
+
+    def states(self):
+        return [c["st"] for c in self.cl]
+
+    def client_init(self, i, sh):
+        c = self.cl[i]
+        c["st"] = 4
+        excl = (not c["rev"]) and (self.never or ((not self.always) and not sh))
+        others = [j for j, d in enumerate(self.cl) if j != i and d["st"] == 4]
+        self.last = dict(exclusive=excl, others=len(others), reverse=c["rev"], shared=int(sh), minor=c["minor"])
+        if excl and self.dont:
+            if others:
+                c["st"] = -1
+        elif excl:
+            for j in others:
+                self.cl[j]["st"] = -1
+
+    def one_pass(self):
+        for i in range(len(self.cl) - 1, -1, -1):
+            c = self.cl[i]
+            if c["st"] == -1 or c["hold"]:
+                continue
+            if c["pend"] is not None:
+                m, c["pend"] = c["pend"], None
+                # harness fact: the peer end of a socketpair that has hung up makes the server's next write
+                # fail (EPIPE), so a client whose message needs an answer is closed instead of served
+                if m == "adv":
+                    if c["st"] == 1:
+                        if c["gone"] and c["minor"] > 7:
+                            c["st"] = -1                   # SecurityResult (3.8+) / ServerInit (3.889) unwritable
+                        else:
+                            c["st"] = 3
+                            if c["minor"] == 889:
+                                self.client_init(i, True)      # implicit shared ClientInit
+                else:
+                    if c["st"] == 3:
+                        if c["gone"]:
+                            c["st"] = -1                   # ServerInit unwritable: never becomes fully connected
+                        else:
+                            self.client_init(i, m[1])
+            elif c["gone"]:
+                c["st"] = -1
+
+    def pump(self):
+        self.one_pass()
+        self.one_pass()
+        self.one_pass()
+
+    def op(self, p):
+        self.last = {}
+        if p[0] == "flags":
+            self.always, self.never, self.dont = p[1] == "1", p[2] == "1", p[3] == "1"
+            return
+        if p[0] in ("conn", "connhold", "connrefuse"):
+            minor = int(p[2]) if len(p) > 2 else 8
+            st = 3 if minor < 7 else 1
+            c = dict(st=st, rev=p[1] == "1", minor=minor, hold=False, pend=None, gone=False)
+            if p[0] == "connhold":
+                c["st"], c["hold"] = 0, True
+            elif p[0] == "connrefuse":
+                c["st"] = -1
+            self.cl.append(c)
+            self.pump()
+            return
+        if p[0] == "probe":
+            self.pump()
+            return
+        i = int(p[1])
+        quiet = p[0].endswith("q")
+        name = p[0].rstrip("q")
+        if i < len(self.cl):
+            c = self.cl[i]
+            if name == "release":
+                if c["st"] == 0 and c["hold"]:
+                    c["hold"] = False
+                    c["st"] = 3 if c["minor"] < 7 else 1
+            elif name == "adv":
+                if c["st"] == 1 and c["pend"] is None and not c["gone"]:
+                    c["pend"] = "adv"
+            elif name == "init":
+                if c["st"] == 3 and c["pend"] is None and not c["gone"]:
+                    c["pend"] = ("init", int(p[2]) != 0)
+            elif name == "drop":
+                if c["st"] != -1:
+                    c["gone"] = True
+        if not quiet:
+            self.pump()
+
+
 def oracle_case(lines, impl_lines):
     """the sharing policy, evaluated on the implementation's own observations.
     returns (message, features) or None"""
-    always = never = dont = False
+    sim = Sim()
     never_throughout = None
-    revs, prev = [], []
-    held_gone = set()        # clients whose peer went away while they were on hold
     it = iter(impl_lines)
+    prev = []
     for op in lines[1:]:
         p = op.split()
         try:
@@ -184,65 +321,33 @@ def oracle_case(lines, impl_lines):
         if cur is None:
             return ("unexpected output %r for '%s'" % (line, op), {"what": "output"})
         st = [s for s, _ in cur]
-        feat = {"always": always, "never": never, "dontdisconnect": dont, "op": p[0]}
+        if p[0] not in ("flags", "conn", "connhold", "connrefuse", "release", "adv", "advq", "init", "initq",
+                        "drop", "dropq", "probe"):
+            return ("unknown op %s" % op, {"what": "script"})
+        sim.op(p)
         if p[0] == "flags":
-            always, never, dont = p[1] == "1", p[2] == "1", p[3] == "1"
-            never_throughout = never if never_throughout is None else (never_throughout and never)
-            want = prev
-        elif p[0] in ("conn", "connhold", "connrefuse"):
-            revs.append(p[1] == "1")
-            want = prev + [{"conn": 1, "connhold": 0, "connrefuse": -1}[p[0]]]
-        elif p[0] == "release":
-            i = int(p[1])
-            want = list(prev)
-            if i < len(prev) and prev[i] == 0:
-                want[i] = -1 if i in held_gone else 1
-        elif p[0] == "adv":
-            i = int(p[1])
-            want = list(prev)
-            if i < len(prev) and prev[i] == 1:
-                want[i] = 3
-        elif p[0] == "drop":
-            i = int(p[1])
-            want = list(prev)
-            if i < len(prev):
-                if prev[i] == 0:
-                    held_gone.add(i)      # an on-hold client is not read from: noticed at release
-                else:
-                    want[i] = -1
-        elif p[0] == "probe":
-            want = prev
+            never_throughout = sim.never if never_throughout is None else (never_throughout and sim.never)
+        want = sim.states()
+        feat = dict(always=sim.always, never=sim.never, dontdisconnect=sim.dont, op=p[0].rstrip("q"))
+        feat.update(sim.last)
+        if p[0] == "probe":
             for j, (s, bad) in enumerate(cur):
                 if bad:
                     return ("client %d is in RFB_NORMAL but is not served framebuffer updates" % j, dict(feat, what="not-served"))
-        elif p[0] == "init":
-            i, sh = int(p[1]), int(p[2])
-            want = list(prev)
-            if i < len(prev) and prev[i] == 3:
-                excl = (not revs[i]) and (never or ((not always) and sh == 0))
-                others = [j for j in range(len(prev)) if j != i and prev[j] == 4]
-                feat.update(exclusive=excl, others=len(others), reverse=revs[i], shared=sh)
-                want[i] = 4
-                if excl and dont:
-                    if others:
-                        want[i] = -1
-                elif excl:
-                    for j in others:
-                        want[j] = -1
-        else:
-            return ("unknown op %s" % op, {"what": "script"})
         if st != want:
             what = "policy"
-            if p[0] == "init":
-                i = int(p[1])
-                if i < len(want) and i < len(st) and st[i] != want[i]:
-                    what = "newcomer-" + ("kept" if st[i] == 4 else "dropped")
-                elif any(a == -1 and b != -1 for a, b in zip(st, want)):
-                    what = "other-client-disconnected"
-                else:
-                    what = "other-client-kept"
+            newcomer = [j for j in range(min(len(st), len(want), len(prev))) if prev[j] in (1, 3) and (st[j] == 4 or want[j] == 4)]
+            if any(st[j] != want[j] for j in newcomer):
+                j = [j for j in newcomer if st[j] != want[j]][0]
+                what = "newcomer-" + ("kept" if st[j] == 4 else ("dropped" if st[j] == -1 else "not-initialised"))
+            elif any(a == -1 and b != -1 for a, b in zip(st, want)):
+                what = "other-client-disconnected"
+            elif any(a != -1 and b == -1 for a, b in zip(st, want)):
+                what = "other-client-kept"
             return ("after '%s' the clients are %s, the sharing policy requires %s (before: %s; flags always=%d never=%d "
-                    "dontDisconnect=%d)" % (op, st, want, prev, always, never, dont), dict(feat, what=what))
+                    "dontDisconnect=%d; minors %s)" % (op, st, want, prev, sim.always, sim.never, sim.dont,
+                                                       [c["minor"] for c in sim.cl]), dict(feat, what=what))
+        revs = [c["rev"] for c in sim.cl]
         if never_throughout and sum(1 for j, s in enumerate(st) if s == 4 and not revs[j]) > 1:
             return ("never-shared screen serves %d inbound clients at once after '%s': %s" %
                     (sum(1 for j, s in enumerate(st) if s == 4 and not revs[j]), op, st), dict(feat, what="two-on-nevershared"))
@@ -284,7 +389,7 @@ def check(ctx):
         if e:
             failing.append((idx, e))
         kind = c[0].split()[2] if len(c[0].split()) > 2 else "?"
-        kind = "corpus" if kind.startswith("corpus") else ("directed" if kind == "directed" else "random")
+        kind = "corpus" if kind.startswith("corpus") else (kind if kind in ("directed", "samepass") else "random")
         hist[kind] = hist.get(kind, 0) + 1
         # distinct decisions actually exercised: (flags, shared byte class, reverse, #others, outcome)
         prev = None
@@ -292,7 +397,7 @@ def check(ctx):
             st = parse_states(l)
             if st is None:
                 break
-            if op.startswith("init") and prev is not None:
+            if op.split()[0] in ("init", "initq") and prev is not None:
                 i = int(op.split()[1])
                 if i < len(prev) and prev[i][0] == 3:
                     others = sum(1 for j, (s, _) in enumerate(prev) if j != i and s == 4)
